@@ -5,7 +5,8 @@ res = json.load(open("/tmp/ref_results.json"))
 rounds = {"r": "round 1 (single idioms)", "s": "round 2 (combined idioms, helper extraction, loop restructuring)", "t": "round 3 (same brief as round 2, fresh agents)",
           "u": "round 4 (same brief, fresh agents, on the repaired tree)",
           "v": "round 5 (same brief, fresh agents, novelty guard in place)",
-          "w": "round 6 (helpers with guard clauses, reorganised early returns, in-place <-> out-of-place on locals; after the obligations of DESIGN section 29)"}
+          "w": "round 6 (helpers with guard clauses, reorganised early returns, in-place <-> out-of-place on locals; after the obligations of DESIGN section 29)",
+          "x": "round 7 (as round 6 plus module / class constants, explicit dtypes, wrapper + worker splits; after the obligations of DESIGN section 31)"}
 out = ["# Behaviour-preserving variants (`seeded/refactorings/`)", "",
        "Each directory holds `patch.diff` (against `/repo` HEAD) and `meta.json` (what the sub-agent did and how it verified",
        "equivalence: unchanged test result, import check, old-versus-new harness).  `python3 tools/ref_check.py [filter]` applies every",
